@@ -172,6 +172,14 @@ def _hash_fields(ctx: Any, cls: ClassInfo) -> Tuple[Set[str], List[str], Optiona
         raise AnalysisError(f'{cls.full}.__init__: `_hash` is not hash((...tuple...)): {norm(hexpr)}')
     fields: Set[str] = set()
     odd: List[str] = []
+    # a local that is stored into a field as it is (`k = x.lower(); self.k = k; ... hash((..., k))`) stands for that field
+    from .common import local_defs as _ld20
+
+    ldefs = _ld20(init)
+    p2f = dict(p2f)
+    for st in walk_local_ordered(init.node):
+        if isinstance(st, ast.Assign) and len(st.targets) == 1 and self_attr(st.targets[0], me) and isinstance(st.value, ast.Name) and st.value.id not in init.params and len(ldefs.get(st.value.id, [])) == 1:
+            p2f.setdefault(st.value.id, st.targets[0].attr)
     for el in hexpr.args[0].elts:
         if isinstance(el, ast.Starred):
             el = el.value
@@ -243,7 +251,9 @@ def congruence(ctx: Any) -> List[Ob]:
             good = False
             txt = f'self.{low} = ?'
             if st is not None:
-                v = st[1]
+                from .common import expand as _xp20
+
+                v = _xp20(st[2], st[1]) if isinstance(st[2], FuncInfo) else st[1]  # read through a local that names the value
                 txt = f'self.{low} = {norm(v)}'
                 good = (
                     isinstance(v, ast.Call)
